@@ -18,9 +18,27 @@ def generate(repo):
     if not (m1 and m2 and m3):
         raise ValueError("extension OID anchors not found in crypto/tls")
     oid = ints(m1.group(1)) + ints(m2.group(1))
+    # does PubKeyFromCertChain check the certificate's own signature?  (x509
+    # Verify with the certificate as its own root does not)
+    m4 = re.search(r"func PubKeyFromCertChain\(", tls)
+    if not m4:
+        raise ValueError("PubKeyFromCertChain not found")
+    i = tls.index("{", m4.end())
+    depth, j = 0, i
+    for j in range(i, len(tls)):
+        if tls[j] == "{":
+            depth += 1
+        elif tls[j] == "}":
+            depth -= 1
+            if depth == 0:
+                break
+    body = re.sub(r"//[^\n]*", "", tls[i:j + 1])
+    n_sigchk = len(re.findall(r"\.CheckSignature(From)?\(", body))
     out = [
         "(* GENERATED from %s by tools/gen/plugins/tls_oid.py - do not edit *)" % repo,
         "From Coq Require Import ZArith List.", "Import ListNotations.", "Open Scope Z_scope.", "",
         "(* crypto/tls/extension.go extensionPrefix ++ crypto/tls/tls.go extensionID suffix *)",
-        "Definition tls_extension_oid : list Z := [%s]." % ";".join(str(x) for x in oid), ""]
+        "Definition tls_extension_oid : list Z := [%s]." % ";".join(str(x) for x in oid), "",
+        "(* crypto/tls/tls.go : CheckSignature/CheckSignatureFrom calls in PubKeyFromCertChain *)",
+        "Definition tls_self_signature_checks : Z := %d." % n_sigchk, ""]
     return {"TlsOid.v": "\n".join(out)}
